@@ -1171,3 +1171,56 @@ mut('C08', 'zincdumper', "CTRL_META = re.compile(r'([\\x00-\\x1f])')", "CTRL_MET
 mut('C14', 'grid', "        self._row[index] = value\n", "        if self._row[index] != value:\n            self._row[index] = value\n", rule='C14.D1', name='store skipped for an equal row')
 mut('C17', 'zoneinfo', "    raise ValueError('Unable to get timezone of %r' % dt)", "    raise ValueError('Unable to get timezone of %r (%s)' % (dt, dt.tzname()))", rule='C17.D3',
     name='error message calls the optional tzname()')
+
+
+# ---- round 9 ---------------------------------------------------------------------------
+_R9_NEAREST_HEAD = """    @classmethod
+    def nearest(self, ver):
+        \"\"\"
+        Retrieve the official version nearest the one given.
+        \"\"\"
+        if not isinstance(ver, Version):
+            ver = Version(ver)
+"""
+_R9_NEAREST_OLD = """        if not isinstance(ver, Version):
+            ver = Version(ver)
+
+        if ver in OFFICIAL_VERSIONS:
+            return ver
+"""
+for _p, _r in (('C18', 'C18.D4'), ('C10', 'C10.D1'), ('C02', 'C02.D4'), ('C07', 'C07.D1')):
+    mut(_p, 'version', _R9_NEAREST_HEAD, "    _seen = {}\n\n" + _R9_NEAREST_HEAD + """        if ver.version_nums in self._seen:
+            return self._seen[ver.version_nums]
+        self._seen[ver.version_nums] = ver if ver in OFFICIAL_VERSIONS else VER_3_0
+""", rule=_r, name='nearest() memo keyed by the numeric groups')
+mut('C18', 'version', _R9_NEAREST_OLD, """        if not isinstance(ver, Version):
+            ver = Version(ver)
+        self._last_for = ver
+        self._last_is = None
+        if ver in OFFICIAL_VERSIONS:
+            return ver
+""", rule='C18.D4', name='nearest() memo in two class attributes')
+mut('C18', 'version', "        elif self.version_extra < other.version_extra:\n            return -1",
+    "        elif self.version_extra.lower() < other.version_extra.lower():\n            return -1", name='suffix order by lower-cased text')
+for _p, _r in (('C17', 'C17.D1'), ('C05', 'C05.D4'), ('C03', 'C03.D5')):
+    mut(_p, 'zoneinfo', "        _TZ_RMAP = dict([(z,n) for (n,z) in list(_TZ_MAP.items())])",
+        "        _TZ_RMAP = dict([(z,n) for (n,z) in list(_TZ_MAP.items())])\n        _TZ_RMAP['Etc/UTC'] = 'UTC'", rule=_r,
+        name='zone table changed in place after it was bound')
+for _p, _r in (('C06', 'C06.D4'), ('C02', 'C02.D7'), ('C07', 'C07.D1')):
+    mut(_p, 'jsondumper', "    tz_name = timezone_name(date_time, version=version)\n    return 't:%s %s' % (date_time.isoformat(), tz_name)",
+        "    if date_time in _SEEN:\n        return _SEEN[date_time]\n    tz_name = timezone_name(date_time, version=version)\n    _SEEN[date_time] = 't:%s %s' % (date_time.isoformat(), tz_name)\n    return _SEEN[date_time]\n\n\n_SEEN = {}",
+        rule=_r, name='JSON date-time text remembered per value')
+mut('C06', 'dumper', "    _dump = functools.partial(dump_grid, mode=mode)", "    if not all(grids):\n        raise ValueError('empty grid')\n    _dump = functools.partial(dump_grid, mode=mode)",
+    rule='C06.D1', name='dump() walks its argument twice')
+mut('C06', 'dumper', "    _dump = functools.partial(dump_grid, mode=mode)", "    grids = list(grids)\n    if not all(grids):\n        raise ValueError('empty grid')\n    _dump = functools.partial(dump_grid, mode=mode)",
+    'OK', name='dump() materialises its argument first')
+mut('C11', 'grid_filter', 'Suppress(Keyword("not"))', 'Suppress(Literal("not"))', rule='C11.D1', name='not without word boundary')
+mut('C11', 'grid_filter', 'ZeroOrMore(Keyword("and") + hs_term)', 'ZeroOrMore(Literal("and") + hs_term)', rule='C11.D1', name='and without word boundary')
+mut('C12', 'grid_filter', '"def %s(_grid, _entity):\\n  return " % fun_name + "".join(def_filter)',
+    '"def %s(_grid, _entity):\\n  # %s\\n  return " % (fun_name, filter.strip()) + "".join(def_filter)', rule='C12.D3',
+    name='stripped filter text in the exec template')
+mut('C19', 'datatypes', "return self._cmp_op(other, lambda x, y: x != y)", "return self._cmp_op(other, lambda x, y: x != y and not (x != x and y != y))",
+    rule='C19.D1', name='NaN-aware != next to a plain ==')
+mut('C10', 'grid', "                mo = MetadataObject(validate_fn=self._detect_or_validate)\n                mo.extend(col_meta)\n                self.column.add_item(col_id, mo)",
+    "                mo = MetadataObject(validate_fn=self._detect_or_validate)\n                mo.extend(col_meta)\n                self.column.add_item(col_id, mo if not isinstance(col_meta, MetadataObject) else col_meta)",
+    rule='C10.D2', name='constructor keeps a caller-owned column object')
